@@ -40,7 +40,8 @@ def main(argv):
     # ---- Lean: regenerate, build, audit ---------------------------------------------------
     driver = None
     reg = leantie.regenerate()
-    ctx.lean["regenerated"] = {"changed": reg["changed"], "errors": reg["errors"]}
+    ctx.lean["regenerated"] = {"changed": reg["changed"], "errors": reg["errors"],
+                               "translated_functions": {g: sorted(v) for g, v in reg["info"].items() if g.startswith("Py")}}
     pm = mod.PROOF_MODULE
     proof_modules = [pm] if isinstance(pm, str) else list(pm)
     # a regenerated file that could not be produced breaks the tie of the properties whose theorems mention it
@@ -53,21 +54,36 @@ def main(argv):
     # build what this property needs (its proof modules and the model driver); a broken proof file of
     # another property must not break this one
     bd = leantie.build(("OdeVerif.Driver",))
-    b = leantie.build(tuple(proof_modules)) if bd["ok"] else bd
-    ctx.lean["build"] = {"ok": b["ok"] and bd["ok"], "wall_s": round(b["wall_s"] + bd["wall_s"], 2)}
+    built, failed, wall = [], {}, bd["wall_s"]
+    if bd["ok"]:
+        # one module at a time: a proof module that no longer builds (e.g. a refinement theorem about a regenerated
+        # definition) must not hide the state of the others
+        for m in proof_modules:
+            r = leantie.build((m,))
+            wall += r["wall_s"]
+            if r["ok"]:
+                built.append(m)
+            else:
+                failed[m] = r["output"][-2500:]
+    ctx.lean["build"] = {"ok": bd["ok"] and not failed, "wall_s": round(wall, 2), "modules_built": built, "modules_failed": sorted(failed)}
     if not bd["ok"]:
         ctx.tie_break("lake build (model driver)", bd["output"][-2500:])
-    if not b["ok"]:
-        ctx.lean["build"]["output_tail"] = b["output"][-2500:]
-        if bd["ok"]:
-            ctx.tie_break("lake build", b["output"][-2500:])
         for t in mod.THEOREMS:
             ctx.obligations[t] = {"status": "build-failed", "axioms": []}
-    else:
-        aud, raw = leantie.audit(mod.PROOF_MODULE, mod.THEOREMS)
+    for m, out_ in failed.items():
+        ctx.lean["build"].setdefault("output_tail", {})[m] = out_
+        ctx.tie_break("lake build " + m, out_)
+    if bd["ok"]:
+        if built:
+            aud, raw = leantie.audit(built, mod.THEOREMS)
+        else:
+            aud, raw = {t: {"status": "missing", "axioms": []} for t in mod.THEOREMS}, ""
+        for t, st in aud.items():
+            if st["status"] == "missing" and failed:
+                st["status"] = "build-failed"
         ctx.obligations.update(aud)
         for t, st in aud.items():
-            if st["status"] != "ok":
+            if st["status"] not in ("ok", "build-failed"):
                 ctx.tie_break("theorem:" + t, st["status"] + " " + ",".join(st["axioms"]) + " :: " + raw[-600:])
     if bd["ok"]:
         # the model driver does not depend on the proof modules: correspondence and search still run when a proof broke
@@ -89,8 +105,8 @@ def main(argv):
     changed_fp = [k for k, v in ctx.lean["fingerprints"].items() if base_fp.get(k) not in (None, v)]
     ctx.lean["fingerprints_changed_vs_pinned"] = changed_fp
     ctx.source_changed = bool(changed_fp)
-    if tier == "thorough" and b["ok"] and getattr(mod, "LEANCHECKER", True):
-        lc = leantie.leanchecker([mod.PROOF_MODULE] if isinstance(mod.PROOF_MODULE, str) else list(mod.PROOF_MODULE))
+    if tier == "thorough" and built and getattr(mod, "LEANCHECKER", True):
+        lc = leantie.leanchecker(built)
         ctx.lean["leanchecker"] = lc["ok"]
         if not lc["ok"]:
             ctx.tie_break("leanchecker", lc["output"])
